@@ -1,3 +1,55 @@
+"""C04 - every call terminates, and an incomplete trajectory is reported truthfully."""
+import time
+
 LEVEL = 'other'
-EXPLANATION = 'C04 (under construction)'
-EXTRA = []
+EXPLANATION = ('Raise path of _integrate under contract (exc_ensures): the reason is the first violated limit in the order '
+               'velocity, drop, altitude; the limits are those of this calculator\'s Config; the last row of the attached '
+               'partial trajectory is the post-step state that violated it; last_distance is that row\'s distance; every '
+               'state kept after a step is within all three limits (step clause + invariant); rows recorded before the stop '
+               'do not depend on the limits (they are produced before the limit test of the step: frame/dep). The inner loop of '
+               'should_record and the zero-finding loop have variants. Termination of the integration loop itself is a '
+               'property of the nonlinear dynamics: bounded watchdog only.')
+TEXT = ('proof of truthful range errors and in-limit rows; termination of the outer integration loop is bounded only '
+        '(watchdog on adversarial shots), hence "other"')
+NOT_DECIDED = ['termination of the integration loop (gravity must eventually win against an uninterpreted drag and wind): '
+               'bounded watchdog only', 'speed limit on interpolated rows: only >= vmin cos(theta/2) is derivable']
+EXTRA = ['bounded_watchdog']
+
+
+def bounded_watchdog(tier, seed):
+    from pyvc.bounded import pkg, mk
+    from pyvc.scan import result
+    import signal
+    P = pkg()
+    t0 = time.time()
+    bad = None
+    cases = 0
+
+    class TO(Exception):
+        pass
+
+    def alarm(*a):
+        raise TO()
+    old = signal.signal(signal.SIGALRM, alarm)
+    try:
+        for el, mv, cfg in ((90, 800, {}), (-90, 800, {}), (85, 50, {'cMinimumVelocity': 0}), (0, 0.0001, {}),
+                            (45, 3000, {'cMinimumVelocity': 0, 'cMaximumDrop': -100}), (10, 2000, {'cMinimumAltitude': 0})):
+            shot = P.Shot(P.Weapon(2, 12), P.Ammo(P.DragModel(0.3, P.TableG7), P.Unit.FPS(mv)), relative_angle=P.Unit.Degree(el))
+            signal.alarm(25)
+            try:
+                try:
+                    P.Calculator(_config=cfg).fire(shot, P.Unit.Yard(100000), P.Unit.Yard(10000))
+                except P.RangeError as e:
+                    last = e.incomplete_trajectory[-1]
+                    if e.last_distance is not last.distance:
+                        bad = f'last_distance is not the last row\'s distance (elevation {el})'
+                cases += 1
+            except TO:
+                bad = f'no termination within 25 s: elevation {el} deg, mv {mv} fps, config {cfg}'
+            finally:
+                signal.alarm(0)
+    finally:
+        signal.signal(signal.SIGALRM, old)
+    return result('bounded:watchdog', [mk('adversarial-shots-terminate', bad is None,
+                  'vertical, downward, very slow and beyond-reach shots x limit configurations terminate within 25 s each',
+                  cases, t0, bad)], t0, props=('C04',))
